@@ -48,7 +48,9 @@ from . import codec_targets as ct
 
 HERE = pathlib.Path(__file__).resolve().parent
 CORPUS = common.VERIF / "corpus" / "C04"
-SAN = ["-O1", "-g", "-fsanitize=address,undefined", "-fno-sanitize-recover=all", "-fno-omit-frame-pointer"]
+SAN_COMMON = ["-fsanitize=address,undefined", "-fno-sanitize-recover=all", "-fno-omit-frame-pointer"]
+SAN = ["-O0"] + SAN_COMMON          # quick tier: unoptimised builds compile four times faster; set to -O1 -g in the thorough tier
+SAN_OPT = ["-O1", "-g"] + SAN_COMMON
 SAN_ENV = {"ASAN_OPTIONS": "detect_leaks=1:allocator_may_return_null=1:abort_on_error=0:exitcode=66",
            "UBSAN_OPTIONS": "print_stacktrace=0:halt_on_error=1:exitcode=67",
            "LSAN_OPTIONS": "exitcode=68"}
@@ -433,7 +435,8 @@ def variant_fail_key(ans, ops, target):
     return {"kind": k, "target": target, "construct": construct}
 
 
-def variant_stream(ctx, drv, tables):
+def variant_prepare(ctx, tables):
+    """rng-dependent choices (call in the main thread) -> state; the builds are done by variant_build(state)."""
     from translate import variant_tables as vt
     rng = ctx.rng
     all_kinds = list(tables)
@@ -450,7 +453,13 @@ def variant_stream(ctx, drv, tables):
     builds = [VariantBuild("cpp/c++14/tracked", base / "trk14", ns_dir, kinds_list, "c++14", tracked=True, sanitize=False),
               VariantBuild("cpp/c++14", base / "san14", ns_dir, kinds_list, "c++14", tracked=False, sanitize=True),
               VariantBuild("cpp/c++17", base / "san17", ns_dir, kinds_list, "c++17", tracked=False, sanitize=True)]
-    build_variant_builds(builds)
+    return {"kinds_list": kinds_list, "len2": len2, "corpus_ops": corpus_ops, "builds": builds}
+
+
+def variant_stream(ctx, drv, state):
+    from translate import variant_tables as vt
+    rng = ctx.rng
+    kinds_list, len2, corpus_ops, builds = state["kinds_list"], state["len2"], state["corpus_ops"], state["builds"]
     for b in builds:
         if not b.ok:
             ctx.broken.append({"kind": "variant-build", "target": b.name, "log_tail": b.log[-2500:]})
@@ -660,12 +669,15 @@ def ask_model(drivers, lines):
     return dict(zip(uniq, ans)), src
 
 
-def codec_stream(ctx, drivers, ns, label, n_values, n_invalid, n_strings):
+def codec_prepare(ctx, ns, label):
     base = ctx.scratch / ("codec_" + label)
     base.mkdir(parents=True, exist_ok=True)
-    specs = make_targets(ns, base, ctx.quick, label)
+    return make_targets(ns, base, ctx.quick, label)
+
+
+def codec_stream(ctx, drivers, ns, label, specs, n_values, n_invalid, n_strings):
     t0 = time.time()
-    targets = build_targets(specs)
+    targets = [t for t in specs if t.ok]
     built = {t.name for t in targets}
     for t in specs:
         if t.name not in built:
@@ -673,7 +685,6 @@ def codec_stream(ctx, drivers, ns, label, n_values, n_invalid, n_strings):
                 ctx.extra.setdefault("targets_not_built", []).append({"target": t.name, "namespace": label, "log_tail": t.build_log[-600:]})
             else:
                 ctx.broken.append({"kind": "target-build", "target": t.name, "namespace": label, "log_tail": t.build_log[-2500:]})
-    ctx.extra.setdefault("build_seconds", {})[label] = round(time.time() - t0, 1)
     reqs = codec_requests(ctx, ns, n_values, n_invalid, n_strings)
     model, msrc = ask_model(drivers, [r["model"] for r in reqs])
     ctx.extra["codec_model_source"] = msrc
@@ -801,29 +812,38 @@ def field_flags(header_text, eb):
     return lp_checked, elems_checked
 
 
-def override_stream(ctx, vdrv):
+def override_prepare(ctx):
+    """generate + list the compile jobs; override_build(state) compiles"""
     base = ctx.scratch / "override"
     gen = base / "gen"
     base.mkdir(parents=True, exist_ok=True)
-    env = dict(os.environ)
-    env["PYTHONPATH"] = str(common.REPO / "src")
-    p = subprocess.run([common.PY, "-m", "nunavut", "--target-language", "c", "--enable-override-variable-array-capacity", "--outdir", str(gen),
-                        str(CORPUS / "override" / "ov")], capture_output=True, text=True, timeout=600, env=env)
-    if p.returncode != 0:
-        ctx.broken.append({"kind": "override-generate", "log_tail": (p.stdout + p.stderr)[-2000:]})
-        return
-    configs = [("default", None), ("sl2", 2), ("sl0", 0)] if ctx.quick else [("default", None)] + [(f"sl{n}", n) for n in (0, 1, 2, 5, 6)]
+    configs = [("default", None), ("sl2", 2), ("sl1", 1)] if ctx.quick else [("default", None)] + [(f"sl{n}", n) for n in (1, 2, 3, 5, 6)]
     jobs = []
     for name, sl in configs:
         exe = base / f"ov_{name}"
-        defs = [] if sl is None else [f"-Dov_{t}_1_0_xs_ARRAY_CAPACITY_={sl}U" for t in OV_TYPES if not (sl == 0)]
-        if sl == 0:
-            # a zero-length array is not ISO C; the smallest legal reduction is 1 -> use 1 for the "smallest" configuration
-            defs = [f"-Dov_{t}_1_0_xs_ARRAY_CAPACITY_=1U" for t in OV_TYPES]
-        jobs.append((name, (1 if sl == 0 else sl), exe, ["gcc", "-std=c11", "-Wall", "-Wno-unused-function"] + SAN + defs +
+        defs = [] if sl is None else [f"-Dov_{t}_1_0_xs_ARRAY_CAPACITY_={sl}U" for t in OV_TYPES]
+        jobs.append((name, sl, exe, ["gcc", "-std=c11", "-Wall", "-Wno-unused-function"] + SAN + defs +
                      ["-I", str(gen), str(HERE / "c" / "c04_override.c"), "-o", str(exe), "-lm"]))
-    with concurrent.futures.ThreadPoolExecutor(NCPU) as ex:
-        res = list(ex.map(lambda j: compile_cmd(j[3]), jobs))
+    return {"base": base, "gen": gen, "configs": configs, "jobs": jobs, "res": None, "gen_log": None}
+
+
+def override_build(state):
+    env = dict(os.environ)
+    env["PYTHONPATH"] = str(common.REPO / "src")
+    p = subprocess.run([common.PY, "-m", "nunavut", "--target-language", "c", "--enable-override-variable-array-capacity", "--outdir", str(state["gen"]),
+                        str(CORPUS / "override" / "ov")], capture_output=True, text=True, timeout=600, env=env)
+    if p.returncode != 0:
+        state["gen_log"] = (p.stdout + p.stderr)[-2000:]
+        return
+    with concurrent.futures.ThreadPoolExecutor(4) as ex:
+        state["res"] = list(ex.map(lambda j: compile_cmd(j[3]), state["jobs"]))
+
+
+def override_stream(ctx, vdrv, state):
+    if state["res"] is None:
+        ctx.broken.append({"kind": "override-generate", "log_tail": state["gen_log"]})
+        return
+    gen, configs, jobs, res = state["gen"], state["configs"], state["jobs"], state["res"]
     flags = {}
     for t, eb in OV_TYPES.items():
         try:
@@ -958,41 +978,68 @@ def run(ctx: common.Ctx):
                        "buffer reads of the C deserializer saturate (support primitives: property C14)",
                        "PyDSDL's bit length sets (sizes, alignment claims) are right; alignment claims are asserted at run time in the C build"]
     ctx.exhaustive = False
+    global SAN
+    if not ctx.quick:
+        SAN = SAN_OPT
+    # ---- phase 1: every rng-dependent choice, in a fixed order, in this thread --------------------------------
     t0 = time.time()
-    if tables is not None:
+    vstate = variant_prepare(ctx, tables) if tables is not None else None
+    ostate = override_prepare(ctx)
+    prof = {"p_service": 0.05, "max_type_bits": 6000, "p_big_capacity": 0.0, "p_constants": 0.0}
+    nrounds = 1 if ctx.quick else 4
+    namespaces = []
+    for rnd in range(nrounds):
+        root_name = f"vns{rnd}"
+        ns = dsdlgen.generate(ctx.rng, ctx.scratch / f"gen_ns{rnd}", n_types=(18 if ctx.quick else 60), root_name=root_name, profile=prof)
+        ctx.count("generated_types", len(ns.types))
+        ctx.count("dropped_definitions", len(ns.dropped))
+        if rnd == 0:
+            # the regression types travel as a sub-namespace of the first generated root (one build for both)
+            shutil.copytree(CORPUS / "types" / "c04c", ns.root / "c04c")
+            ns = dsdlgen.load(ns.root)
+        namespaces.append((f"ns{rnd}", ns, codec_prepare(ctx, ns, f"ns{rnd}")))
+    ctx.extra.setdefault("stream_seconds", {})["prepare"] = round(time.time() - t0, 1)
+    # ---- phase 2: all builds concurrently ----------------------------------------------------------------------
+    t0 = time.time()
+    with concurrent.futures.ThreadPoolExecutor(3 + len(namespaces)) as ex:
+        futs = []
+        if vstate is not None:
+            futs.append(ex.submit(build_variant_builds, vstate["builds"]))
+        futs.append(ex.submit(override_build, ostate))
+        for _, _, specs in namespaces:
+            futs.append(ex.submit(build_targets, specs))
+        for f in futs:
+            try:
+                f.result()
+            except Exception as e:
+                ctx.broken.append({"kind": "build-phase", "error": f"{type(e).__name__}: {str(e)[:1500]}"})
+    ctx.extra["stream_seconds"]["build_all"] = round(time.time() - t0, 1)
+    # ---- phase 3: the streams --------------------------------------------------------------------------------------
+    t0 = time.time()
+    if vstate is not None:
         try:
-            variant_stream(ctx, vdrv, tables)
+            variant_stream(ctx, vdrv, vstate)
         except Exception as e:
             ctx.broken.append({"kind": "variant-stream", "error": f"{type(e).__name__}: {str(e)[:1500]}"})
-    ctx.extra.setdefault("stream_seconds", {})["variant"] = round(time.time() - t0, 1)
+    ctx.extra["stream_seconds"]["variant"] = round(time.time() - t0, 1)
     t0 = time.time()
     try:
-        override_stream(ctx, vdrv)
+        override_stream(ctx, vdrv, ostate)
     except Exception as e:
         ctx.broken.append({"kind": "override-stream", "error": f"{type(e).__name__}: {str(e)[:1500]}"})
     ctx.extra["stream_seconds"]["override"] = round(time.time() - t0, 1)
     t0 = time.time()
-    # corpus namespace (copied: never generate into /verif)
-    cdir = ctx.scratch / "corpus_ns"
-    shutil.copytree(CORPUS / "types", cdir)
-    ns_corpus = dsdlgen.load(cdir / "c04c")
-    if ctx.quick:
-        codec_stream(ctx, drivers, ns_corpus, "corpus", n_values=5, n_invalid=3, n_strings=14)
-    else:
-        codec_stream(ctx, drivers, ns_corpus, "corpus", n_values=12, n_invalid=6, n_strings=40)
-    ctx.extra["stream_seconds"]["codec_corpus"] = round(time.time() - t0, 1)
-    t0 = time.time()
-    prof = {"p_service": 0.05, "max_type_bits": 6000, "p_big_capacity": 0.0, "p_constants": 0.0}
-    nrounds = 1 if ctx.quick else 4
-    for rnd in range(nrounds):
-        ns = dsdlgen.generate(ctx.rng, ctx.scratch / f"gen_ns{rnd}", n_types=(22 if ctx.quick else 60), root_name=f"vns{rnd}", profile=prof)
-        ctx.count("generated_types", len(ns.types))
-        ctx.count("dropped_definitions", len(ns.dropped))
+    for label, ns, specs in namespaces:
         if ctx.quick:
-            codec_stream(ctx, drivers, ns, f"random{rnd}", n_values=4, n_invalid=2, n_strings=10)
+            codec_stream(ctx, drivers, ns, label, specs, n_values=4, n_invalid=2, n_strings=10)
         else:
-            codec_stream(ctx, drivers, ns, f"random{rnd}", n_values=8, n_invalid=4, n_strings=24)
-    ctx.extra["stream_seconds"]["codec_random"] = round(time.time() - t0, 1)
+            codec_stream(ctx, drivers, ns, label, specs, n_values=8, n_invalid=4, n_strings=24)
+    ctx.extra["stream_seconds"]["codec"] = round(time.time() - t0, 1)
+    by_stream = {}
+    for d in ctx.disagreements:
+        by_stream.setdefault(d["stream"], []).append(d)
+    ctx.extra["disagreements_by_stream"] = {k: {"n": len(v), "first": v[:3]} for k, v in by_stream.items()}
+    ctx.extra["broken_kinds"] = [b.get("kind") + ":" + str(b.get("target", b.get("error", "")))[:200] for b in ctx.broken]
 
 
 def replay(ctx, path):
